@@ -3,6 +3,12 @@ HOOK_COMMITS = []
 PENDING = "check not built yet in this round (the design in DESIGN.md applies; runtime monitoring does apply to it)"
 NOT_APPLICABLE = {("C%02d" % i): PENDING for i in range(1, 21)}
 CHECKS = {
+    "C01": {
+        "text": "Held on the executions observed: tens of thousands (quick) to ~10^6 (thorough) generated core-language programs (scope-/arity-aware grammar: nested defs with $x and filter parameters, closures, shadowing, bounded recursion, label/break through closures, patterns, reduce/foreach, try/catch, //, paths, updates, interpolation, multi-valued object keys/values) rendered by an independent printer, run by the real lexer+parser+compiler+interpreter in two build flavours and compared output by output, up to and including the first error/halt, with jqref, a lazy definitional interpreter written from the manual; plus every `code --> output` example of the manual of the current tree (vs documented output, vs jqref, and re-run under 8 semantics-preserving binder wrappers). No proof; bounded by program size.",
+        "design_ref": "DESIGN.md §4 C01, §2.2, Appendix A",
+        "note": "trusts jqref as a reading of the manual (calibrated on every run against the manual's ~570 examples; a disagreement there makes the run a broken check, not a verdict); corners the manual leaves open are skipped (Appendix B)",
+        "technique": "runtime monitoring: reference-model monitor (definitional interpreter vs real execution) + metamorphic binder wrappers",
+    },
     "C08": {
         "text": "Held on the executions observed: whole comparison matrices over pools of typed values (every number representation of equal values, representation boundaries, text/byte strings, objects in different insertion orders) computed by the real interpreter, compared with the manual's order and checked model-free for trichotomy, antisymmetry and transitivity; sort/unique/group_by/min/max/bsearch/array-minus checked against the same order; model-equal values substituted for each other in 20 lookup/dedup contexts. Bounded by the pools; no proof.",
         "design_ref": "DESIGN.md §4 C08",
